@@ -44,6 +44,7 @@ type Contract struct {
 	Loops    map[int]*LoopSpec
 	Decr     *Clause
 	Unfold   []*Clause
+	UnfoldAt []*Clause
 	Uses     []*Clause
 	Emits    []*Clause
 	Asserts  []*Clause // ghost statements keyed by position marker
@@ -81,6 +82,7 @@ type Lemma struct {
 	Axiom   bool
 	Uses    []Expr
 	Unfold  []Expr
+	UnfoldAt []Expr
 	Decr    Expr
 	Text    string
 	File    string
@@ -106,7 +108,7 @@ var clauseKeywords = map[string]bool{
 	"requires": true, "ensures": true, "modifies": true, "pure": true, "mode": true, "strings": true,
 	"decreases": true, "panics": true, "emits": true, "loop": true, "callinv": true, "unfold": true,
 	"behavior": true, "assumes": true, "nooverflow": true, "use": true, "trusted": true, "replay": true,
-	"opt": true, "induct": true,
+	"opt": true, "induct": true, "unfoldat": true,
 }
 
 var itemKeywords = map[string]bool{"func": true, "spec": true, "lemma": true, "axiom": true, "interface": true, "type": true, "ghost": true}
@@ -132,6 +134,7 @@ func loadContracts(repo string, extraDirs ...string) (*ContractSet, error) {
 			return nil, err
 		}
 	}
+	defer cs.markRecursive()
 	for _, d := range extraDirs {
 		ms, _ := filepath.Glob(filepath.Join(d, "*.spec"))
 		for _, f := range ms {
@@ -330,6 +333,14 @@ func (cs *ContractSet) parseItem(file, pkgPath, header string, line int, clauses
 					return err
 				}
 				c.Decr = cl
+			case "unfoldat":
+				for _, part := range splitTop(body, ',') {
+					e, err := parseExpr(part)
+					if err != nil {
+						return fmt.Errorf("%s:%d: %v", file, rc.line, err)
+					}
+					c.UnfoldAt = append(c.UnfoldAt, &Clause{Kind: kw, Text: part, Expr: e, Line: rc.line, File: file})
+				}
 			case "unfold", "use":
 				for _, part := range splitTop(body, ',') {
 					e, err := parseExpr(part)
@@ -381,14 +392,20 @@ func (cs *ContractSet) parseItem(file, pkgPath, header string, line int, clauses
 					}
 					c.Opts[fs[0]] = v
 				}
+				if len(fs) >= 1 && fs[0] == "nooverflow" {
+					c.NoOvf = true
+				}
 			case "replay":
 				c.Replay = body
 			case "behavior":
 				behav = strings.TrimSuffix(strings.TrimSpace(body), ":")
 			case "emits":
-				if err := parse(); err != nil {
-					return err
+				// emits x T :: count(x)   -- the callback is called count(x) times with argument x
+				q, err := parseExpr("forall " + body)
+				if err != nil {
+					return fmt.Errorf("%s:%d: %v", file, rc.line, err)
 				}
+				cl.Expr = q
 				c.Emits = append(c.Emits, cl)
 			default:
 				return fmt.Errorf("%s:%d: unknown clause %q", file, rc.line, kw)
@@ -430,7 +447,13 @@ func (cs *ContractSet) parseItem(file, pkgPath, header string, line int, clauses
 			tail = ""
 		}
 		if k := strings.Index(tail, " reads "); k >= 0 {
+			rd := strings.TrimSpace(tail[k+7:])
 			tail = strings.TrimSpace(tail[:k])
+			re, err := parseExpr(rd)
+			if err != nil {
+				return errf("%v", err)
+			}
+			sf.Reads = re
 		}
 		if tail == "" {
 			return errf("spec func %s needs a result type", name)
@@ -467,13 +490,15 @@ func (cs *ContractSet) parseItem(file, pkgPath, header string, line int, clauses
 			kw := firstWord(rc.text)
 			body := strings.TrimSpace(rc.text[len(kw):])
 			switch kw {
-			case "use", "unfold", "induct":
+			case "use", "unfold", "induct", "unfoldat":
 				for _, part := range splitTop(body, ',') {
 					e, err := parseExpr(part)
 					if err != nil {
 						return fmt.Errorf("%s:%d: %v", file, rc.line, err)
 					}
 					switch kw {
+					case "unfoldat":
+						lm.UnfoldAt = append(lm.UnfoldAt, e)
 					case "use":
 						lm.Uses = append(lm.Uses, e)
 					case "unfold":
@@ -661,5 +686,44 @@ func walkExpr(e Expr, f func(Expr)) {
 		walkExpr(x.X, f)
 	case EAs:
 		walkExpr(x.X, f)
+	}
+}
+
+// markRecursive marks spec functions on a cycle of the (package-local) call graph as recursive.
+func (cs *ContractSet) markRecursive() {
+	callees := map[string][]string{}
+	for k, sf := range cs.Specs {
+		if sf.Body == nil {
+			continue
+		}
+		walkExpr(sf.Body, func(x Expr) {
+			if c, ok := x.(ECall); ok {
+				if id, ok := c.Fn.(EIdent); ok {
+					if _, isSpec := cs.Specs[sf.PkgPath+"."+id.Name]; isSpec {
+						callees[k] = append(callees[k], sf.PkgPath+"."+id.Name)
+					}
+				}
+			}
+		})
+	}
+	var reach func(from, target string, seen map[string]bool) bool
+	reach = func(from, target string, seen map[string]bool) bool {
+		for _, c := range callees[from] {
+			if c == target {
+				return true
+			}
+			if !seen[c] {
+				seen[c] = true
+				if reach(c, target, seen) {
+					return true
+				}
+			}
+		}
+		return false
+	}
+	for k, sf := range cs.Specs {
+		if reach(k, k, map[string]bool{}) {
+			sf.Rec = true
+		}
 	}
 }
